@@ -1195,25 +1195,36 @@ def rule_declarations_removed(model: Model, rule_id: str = 'C17-R12') -> RuleRes
             if q:
                 made.add(q)
     f = model.func('pane.classes._process')
-    cfg = cfg_of(model, f)
-    nz = Normalizer(model, f, cfg, param_map=_pm(f))
     r.analysed.add(f.qualname)
     removed: t.Set[str] = set()
     sites = 0
-    for n in cfg.live_nodes():
-        for root in node_exprs(n):
-            for c in walk_no_nested(root):
-                if isinstance(c, ast.Call) and isinstance(c.func, ast.Name) and c.func.id == 'delattr' and c.args and unparse(c.args[0]) == f.params[0]:
-                    sites += 1
-                    gov = _site_conditions(model, f, c)
-                    tests = [text for (_g, text, truth) in gov if truth and text.startswith('isinstance(getattr(')]
-                    if not tests:
-                        removed.add('*')      # unconditional removal
-                    for text in tests:
-                        m_ = re.search(r'\{(.*)\}\)$', text)
-                        if m_:
-                            removed |= {x.strip() for x in m_.group(1).split(',')}
-    _ = nz
+    # _process itself and the module helpers it hands the class to (`_install_class_defaults(cls, fields)`)
+    scopes: t.List[t.Tuple[FuncInfo, str]] = [(f, f.params[0])]
+    for c in walk_no_nested(f.node):
+        if isinstance(c, ast.Call):
+            g = model.functions.get(model.resolve(c.func, f.module, f) or '')
+            if g is not None and g.module is f.module and g.cls is None and isinstance(g.node, ast.FunctionDef) and g is not f:
+                gp = [a_.arg for a_ in g.node.args.posonlyargs + g.node.args.args]
+                for i_, a_ in enumerate(c.args):
+                    if isinstance(a_, ast.Name) and a_.id == f.params[0] and i_ < len(gp) and any(
+                            isinstance(x, ast.Call) and isinstance(x.func, ast.Name) and x.func.id == 'delattr' for x in ast.walk(g.node)):
+                        scopes.append((g, gp[i_]))
+    for (g, clsname) in scopes:
+        cfg = cfg_of(model, g)
+        for n in cfg.live_nodes():
+            for root in node_exprs(n):
+                for c in walk_no_nested(root):
+                    if isinstance(c, ast.Call) and isinstance(c.func, ast.Name) and c.func.id == 'delattr' and c.args and unparse(c.args[0]) == clsname:
+                        sites += 1
+                        r.analysed.add(g.qualname)
+                        gov = _site_conditions(model, g, c)
+                        tests = [text for (_g, text, truth) in gov if truth and text.startswith('isinstance(getattr(')]
+                        if not tests:
+                            removed.add('*')      # unconditional removal
+                        for text in tests:
+                            m_ = re.search(r'\{(.*)\}\)$', text)
+                            if m_:
+                                removed |= {x.strip() for x in m_.group(1).split(',')}
     r.instances += 1
     r.sample({'field() returns': sorted(made), 'classes removed from the class body': sorted(removed)})
     if not sites:
@@ -3436,9 +3447,11 @@ def rule_specialisations_inherit_dunders(model: Model, rule_id: str = 'C16-R12')
     # an early exit taken for specialisations dominates nothing; look at each generation call: is it unreachable for a specialisation?
     guards = []
     for n in cfg.live_nodes():
-        if n.kind == 'cond' and n.ast is not None and marker.search(unparse(n.ast)):
+        if n.kind == 'cond' and n.ast is not None:
             text, pos = nz.literal(n.ast, n)
-            guards.append((n, text, pos))
+            # (also through a local that holds the test: `is_specialisation = '__origin__' in cls.__dict__ and ...`)
+            if marker.search(unparse(n.ast)) or marker.search(text):
+                guards.append((n, text, pos))
     for c in walk_no_nested(f.node):
         if not (isinstance(c, ast.Call) and isinstance(c.func, ast.Name) and c.func.id in ('_maybe_make_hash', '_make_eq', '_make_ord')):
             continue
@@ -3500,6 +3513,13 @@ def rule_none_argument_is_nonetype(model: Model, rule_id: str = 'C17-R20') -> Ru
     types, and a bare ``None`` has no converter ("Unsupported special type 'None'")."""
     r = RuleResult(rule_id, "a None given as a type argument of a generic dataclass is bound as NoneType", floor=1)
     fs = [model.func('pane.classes.PaneBase.__class_getitem__'), model.func('pane.classes._make_subclass')]
+    # ... and the module helpers they apply to the arguments (`map(_none_as_type, args)`)
+    for f in list(fs):
+        for x in ast.walk(f.node):
+            if isinstance(x, ast.Name) and isinstance(x.ctx, ast.Load):
+                g = model.functions.get(model.resolve(x, f.module, f) or '')
+                if g is not None and g.module is f.module and g.cls is None and g not in fs and isinstance(g.node, ast.FunctionDef) and len(g.params) == 1:
+                    fs.append(g)
     r.instances += 1
     hit = None
     for f in fs:
